@@ -71,6 +71,13 @@ def plan(pid, tier, seed):
         S += scen.directed(pid)
         S += [scen.profile_history(pid, base + i, tier) for i in range(n(tier, 10, 50))]
         M += models.for_property(pid, tier)
+    elif pid == "C16":
+        S += [scen.cycles_history(base + i, nblocks=n(tier, 8, 14)) for i in range(n(tier, 12, 80))]
+        S += [scen.sendtx_history(base + 700 + i, n=n(tier, 40, 150)) for i in range(n(tier, 4, 20))]
+        M += models.for_property(pid, tier)
+    elif pid == "C19":
+        S += [scen.sendtx_history(base + i, n=n(tier, 150, 400)) for i in range(n(tier, 12, 60))]
+        M += models.for_property(pid, tier)
     else:
         raise runner.ToolError(f"no plan for property {pid}")
     return M, S
@@ -254,7 +261,7 @@ def run_check(pid, tier, seed, t0):
 
 
 def decision_props():
-    return {"C11", "C12", "C16", "C17", "C18", "C19"}
+    return {"C11", "C12", "C17", "C18"}
 
 
 def replay(pid, path):
